@@ -27,11 +27,12 @@ pub const P_MAX: u32 = 26;
 
 #[inline(never)]
 pub unsafe fn ref_copy(d: *mut u8, s: *const u8, n: usize) {
-    asm!("rep movsb", inout("rcx") n => _, inout("rdi") d => _, inout("rsi") s => _, options(nostack, preserves_flags));
+    // cld: a routine under test that returned with the direction flag set must not turn the reference around
+    asm!("cld", "rep movsb", inout("rcx") n => _, inout("rdi") d => _, inout("rsi") s => _, options(nostack));
 }
 #[inline(never)]
 pub unsafe fn ref_fill(d: *mut u8, c: u8, n: usize) {
-    asm!("rep stosb", inout("rcx") n => _, inout("rdi") d => _, in("al") c, options(nostack, preserves_flags));
+    asm!("cld", "rep stosb", inout("rcx") n => _, inout("rdi") d => _, in("al") c, options(nostack));
 }
 
 /// position pattern, one multiplication per 8 bytes
